@@ -120,6 +120,35 @@ pub fn drive_c18(a: &Args, out: &mut Out) {
         let case = out.next_case();
         out.emit(&long_close_case(&mut rng, case));
     }
+    // exact cutoffs, systematically: for every total length n <= 70 and every LCS length m, a word
+    // of distinct characters and a candidate sharing its first m characters (so the cheap
+    // pre-filter bounds are tight), with cutoff = 2m / n - the candidate's ratio exactly
+    let alphabet: Vec<char> = ('a'..='z').chain('A'..='Z').chain('0'..='9').chain('\u{3b1}'..='\u{3c9}').collect();
+    for n in 2..=(if a.thorough() { 86usize } else { 70 }) {
+        for m in 1..=n / 2 {
+            let rest = n - 2 * m;
+            let (wa, cb) = (rest / 2, rest - rest / 2);
+            if m + wa + cb > alphabet.len() {
+                continue;
+            }
+            let word: String = alphabet[..m + wa].iter().collect();
+            let cand: String = alphabet[..m].iter().chain(alphabet[m + wa..m + wa + cb].iter()).collect();
+            let other: String = alphabet[..m.saturating_sub(1)].iter().collect();
+            let cands = vec![other, cand];
+            let (p, q) = ((2 * m) as u32, n as u32);
+            let cr: Vec<&str> = cands.iter().map(|c| c.as_str()).collect();
+            let case = out.next_case();
+            let res = rec::guarded(|| {
+                rec::hostile(|| get_close_matches(word.as_str(), &cr, 2, p as f32 / q as f32))
+                    .into_iter()
+                    .map(|x| cps(x))
+                    .collect::<Vec<Value>>()
+            });
+            out.emit(&json!({"ev":"closematch","case":case,"mode":"str","exact_cutoff":true,
+                "word":cps(&word),"cands":Value::Array(cands.iter().map(|c| cps(c)).collect()),
+                "n":2,"p":p,"q":q,"panic":res.is_none(),"result":res.unwrap_or_default()}));
+        }
+    }
     let bases = ["appel", "hulo", "similarity", "abcabcabcabcabcabcab", "", "a", "\u{e9}t\u{e9}", "banana", "aaaaaaaaaa", "stra\u{df}e"];
     for i in 0..n {
         let base = bases[rng.below(bases.len())];
